@@ -740,6 +740,14 @@ impl Check for InMemoryData {
     type Case = MemCase;
     const NAME: &'static str = "in_memory_data";
 
+    fn normalise(mut case: MemCase) -> MemCase {
+        for e in &mut case.events {
+            e.price_q = 1 + e.price_q % 1999;
+            e.lag_s %= 900;
+        }
+        case
+    }
+
     fn strategy(_tier: Tier) -> BoxedStrategy<MemCase> {
         (prop::collection::vec((0u8..3, 1u16..2000, prop::bool::weighted(0.2), prop_oneof![6 => Just(0u16), 1 => 1u16..900]), 1..120), 1u8..=4, prop::collection::vec(any::<u8>(), 0..200))
             .prop_map(|(ev, n_streams, schedule)| MemCase { events: ev.into_iter().map(|(inst, price_q, reconnecting, lag_s)| EvGen { inst, price_q, reconnecting, lag_s }).collect(), n_streams, schedule })
